@@ -123,6 +123,18 @@ def run(ctx, rep):
                 if neg:
                     took_true = not took_true
                 look = (e, took_true, sw)
+        sem_ok = False
+        if look is None or not only_via(b, bb, lambda x: x[0] == "call" and bool(HAS.search(x[1])) and len(x) > 3 and x[3] == look[0][3], False):
+            # the lookup's answer parked in a bool local (`let skip = index.has_tree(id) || dry_run; if !skip {..}`): decided by
+            # evaluation - with this lookup answering `present` the add is out of reach (bool locals followed per path)
+            import pathsens
+            for cbb, ct in b.calls():
+                if "callee" in ct and HAS.search(callee(ct)) and C.can_reach(b, cbb, bb):
+                    r_ = pathsens.reachable_under(b, lambda b_, bb_: None, eval_expr=lambda b_, e_, cbb=cbb: True if (e_[0] == "call" and HAS.search(e_[1]) and len(e_) > 3 and e_[3] == cbb) else None)
+                    if bb not in r_:
+                        look = (("call", callee(ct), [], cbb), True, None)
+                        sem_ok = True
+                        break
         if look is None:
             rep.check("C07.b", f"add/{k}", False, where=where(b, bb), what=f"{k}: a blob is handed to the packer without a preceding index lookup (stored again although present)")
             continue
@@ -136,7 +148,7 @@ def run(ctx, rep):
         # ignore the receiver/self roots: intersect on locals that are not arguments
         common = {l for l in (ida & idl) if l > b.argc}
         # must-pass form: every path to the add has seen this lookup answer `false`
-        ev = only_via(b, bb, lambda x: x[0] == "call" and bool(HAS.search(x[1])) and len(x) > 3 and x[3] == e[3], False)
+        ev = sem_ok or only_via(b, bb, lambda x: x[0] == "call" and bool(HAS.search(x[1])) and len(x) > 3 and x[3] == e[3], False)
         # polarity comes from the must-pass form (inside a loop the add is also control dependent on the lookup of an earlier
         # iteration having answered `true`)
         ok = ev and pt == kind and bool(common)
